@@ -45,6 +45,20 @@ def _try(fn):
         return {"$raised": type(ex).__name__}
 
 
+def _quiet(fn):
+    import warnings
+
+    with warnings.catch_warnings():
+        warnings.simplefilter("ignore")
+        return fn()
+
+
+def _first_field(o):
+    """{name of the first declared field} (a set, as include= / exclude= take it)"""
+    names = list(type(o).model_fields) if B.PYDANTIC_AVAILABLE else list(type(o).__model_fields__)
+    return set(names[:1])
+
+
 def observe_instance(o, variants=False):
     out = {"ok": True, "type": type(o).__name__}
     try:
@@ -65,6 +79,12 @@ def observe_instance(o, variants=False):
             "json_plain": _try(lambda: json.loads(o.model_dump_json(exclude_none=True))),
             "mcp": _try(lambda: o.model_dump_mcp(by_alias=True, exclude_none=True)),
             "again": _try(lambda: o.model_dump(by_alias=True, exclude_none=True)),
+            "info_include_first": _try(lambda: o.model_dump(include=_first_field(o), by_alias=True)),
+            "info_exclude_first": _try(lambda: o.model_dump(exclude=_first_field(o), by_alias=True, exclude_none=True)),
+            "info_exclude_dict": _try(lambda: o.model_dump(exclude={k: True for k in _first_field(o)}, exclude_none=True)),
+            "json_indent": _try(lambda: json.loads(o.model_dump_json(by_alias=True, exclude_none=True, indent=2))),
+            "v1_dict": _try(lambda: _quiet(lambda: o.dict(by_alias=True, exclude_none=True))),
+            "v1_json": _try(lambda: _quiet(lambda: json.loads(o.json(by_alias=True, exclude_none=True)))),
         }
     return out
 
@@ -112,6 +132,18 @@ def op_parse(case):
             return {"type": type(sp).__name__, "dump": sp.model_dump(by_alias=True, exclude_none=True),
                     "back": back.model_dump(by_alias=True, exclude_none=True)}
         out.setdefault("variants", {})["specific"] = _try(conv)
+    # the wrapper class and the kind predicates of the legacy class
+    from chuk_mcp.protocol.messages.json_rpc_message import JSONRPCMessageWrapper
+
+    def wrapped():
+        w = JSONRPCMessageWrapper(o)
+        return {"fields": [w.jsonrpc, w.id, w.method, w.params, w.result, w.error],
+                "is": [w.is_request(), w.is_notification(), w.is_response(), w.is_error_response(), w.is_batch()],
+                "dump": w.model_dump(by_alias=True, exclude_none=True),
+                "json": json.loads(w.model_dump_json(exclude_none=True))}
+    out["variants"]["wrapper"] = _try(wrapped)
+    if hasattr(o, "is_request"):
+        out["variants"]["legacy_is"] = _try(lambda: [o.is_request(), o.is_notification(), o.is_response(), o.is_error_response()])
     # kind by member presence (the legacy unified class is returned for most inputs)
     has = lambda n: getattr(o, n, None) is not None  # noqa: E731
     out["kind"] = (
@@ -355,11 +387,234 @@ def op_construct(case):
         uuid.uuid4 = orig
 
 
+# ------------------------------------------------------------------ helper flows
+def _exc(fn):
+    try:
+        return {"value": canon(fn())}
+    except Exception as ex:  # noqa
+        return {"raised": type(ex).__name__}
+
+
+def _roundtrip(cls, emitted):
+    """the typed view of an emitted wire object dumps back to it (by_alias, exclude_none)"""
+    try:
+        o = cls.model_validate(copy.deepcopy(emitted))
+        return {"dump": canon(o.model_dump(by_alias=True, exclude_none=True)), "tree": SI.type_tree(o, B)}
+    except Exception as ex:  # noqa
+        return {"raised": type(ex).__name__}
+
+
+def flow_content_kind(case):
+    from chuk_mcp.protocol.types import content as C
+
+    cls = INDEX[case["cls"]]
+    wire = copy.deepcopy(case["wire"])
+    inst = cls.model_validate(copy.deepcopy(wire))
+    preds = [C.is_text_content, C.is_image_content, C.is_audio_content, C.is_embedded_resource]
+    return {
+        "on_dict": [bool(f(wire)) for f in preds],
+        "on_instance": [bool(f(inst)) for f in preds],
+        "to_dict_instance": canon(C.content_to_dict(inst)),
+        "to_dict_dict": canon(C.content_to_dict(wire)),
+        "to_dict_other": _exc(lambda: C.content_to_dict(5)),
+        "parse": _exc(lambda: C.parse_content(copy.deepcopy(wire)).model_dump(by_alias=True, exclude_none=True)),
+        "parse_unknown": _exc(lambda: C.parse_content({**wire, "type": case.get("bad_tag", "nope")})),
+        "leaks": leaks(inst, C.content_to_dict(inst)),
+    }
+
+
+def flow_tool_result(case):
+    from chuk_mcp.protocol.types import tools as T
+
+    wire = copy.deepcopy(case["wire"])
+    inst = T.ToolResult.model_validate(copy.deepcopy(wire))
+    return {
+        "valid": bool(T.validate_tool_result(inst)),
+        "valid_none": bool(T.validate_tool_result(None)),
+        "to_dict_dict": canon(T.tool_result_to_dict(wire)),
+        "to_dict_other": _exc(lambda: T.tool_result_to_dict(5)),
+        "parse": canon(T.parse_tool_result(copy.deepcopy(wire)).model_dump(by_alias=True, exclude_none=True)),
+        "emitted": canon(T.tool_result_to_dict(inst)),
+        "leaks": leaks(inst, T.tool_result_to_dict(inst)),
+    }
+
+
+def flow_registry(case):
+    """ToolRegistry.call_tool with a handler that returns / raises what the case says"""
+    from chuk_mcp.protocol.types import tools as T
+
+    ret = case["ret"]
+    reg = T.ToolRegistry()
+
+    async def handler(arguments):
+        k = ret["kind"]
+        if k == "result":
+            return T.ToolResult.model_validate(copy.deepcopy(ret["value"]))
+        if k == "raise":
+            raise ValueError(ret["value"])
+        return copy.deepcopy(ret["value"])  # dict / str / other
+
+    tool = T.Tool.model_validate({"name": "t", "inputSchema": {"type": "object"}})
+    reg.register_tool(tool, handler)
+    name = "missing" if ret["kind"] == "unknown" else "t"
+    r1 = asyncio.run(reg.call_tool(name, {"q": 1}))
+    r2 = asyncio.run(reg.call_tool(name, {"q": 1}))  # REUSE: the registry and handler a second time
+    emitted = T.tool_result_to_dict(r1)
+    return {
+        "type": type(r1).__name__, "valid": bool(T.validate_tool_result(r1)), "emitted": canon(emitted),
+        "second": canon(T.tool_result_to_dict(r2)), "roundtrip": _roundtrip(T.ToolResult, emitted), "leaks": leaks(r1, emitted),
+    }
+
+
+def flow_elicit_client(case):
+    from chuk_mcp.protocol.types import elicitation as E
+    from chuk_mcp.protocol.messages.json_rpc_message import parse_message
+
+    seen = []
+
+    async def user(message, schema, title):
+        seen.append([message, schema, title])
+        if case.get("raise") is not None:
+            raise RuntimeError(case["raise"])
+        return copy.deepcopy(case["data"])
+
+    client = E.ElicitationClient(user)
+    resp = asyncio.run(client.handle_elicitation_request(copy.deepcopy(case["message"])))
+    out = {"response": canon(resp), "user_saw": canon(seen)}
+    out["envelope"] = _exc(lambda: parse_message(copy.deepcopy(resp)).model_dump(by_alias=True, exclude_none=True))
+    if isinstance(resp, dict) and "result" in resp:
+        out["roundtrip"] = _roundtrip(E.ElicitationResponse, resp["result"])
+    return out
+
+
+def flow_elicit_route(case):
+    """ElicitationHandler: one request, answered by the message the case gives"""
+    from chuk_mcp.protocol.types import elicitation as E
+
+    params = E.ElicitationParams.model_validate(copy.deepcopy(case["wire"]))
+    sent = []
+
+    async def main():
+        handler = None
+
+        async def send(msg):
+            sent.append(msg)
+            reply = copy.deepcopy(case["reply"])
+            if reply.get("id") == "$same":
+                reply["id"] = msg["id"]
+            await handler.handle_elicitation_response(reply)
+
+        handler = E.ElicitationHandler(send)
+        try:
+            r = await handler.request_user_input(params, timeout=case.get("timeout", 0.05))
+            out = {"outcome": "result", "value": canon(r.model_dump(by_alias=True, exclude_none=True))}
+        except asyncio.TimeoutError:
+            out = {"outcome": "timeout"}
+        except Exception as ex:  # noqa
+            out = {"outcome": "raised", "exc": type(ex).__name__, "text": str(ex) if type(ex) is Exception else None}
+        out["pending_after"] = len(handler._pending_elicitations)
+        return out
+
+    out = asyncio.run(main())
+    out["request_params"] = canon(sent[0]["params"]) if sent else None
+    out["leaks"] = leaks(params, sent[0]["params"]) if sent else []
+    return out
+
+
+def flow_embedded_bytes(case):
+    import base64
+    from chuk_mcp.protocol.types import content as C
+
+    raw = base64.b64decode(case["b64"])
+    r = C.create_embedded_resource(case["uri"], raw, case.get("mime"))
+    d = r.model_dump(by_alias=True, exclude_none=True)
+    return {"emitted": canon(d), "tree": SI.type_tree(r, B), "roundtrip": _roundtrip(C.EmbeddedResource, d),
+            "blob_decodes": base64.b64decode(d["resource"].get("blob", "")) == raw}
+
+
+def flow_example_tool(case):
+    from chuk_mcp.protocol.types import tools as T
+
+    r = asyncio.run(T.example_structured_tool(copy.deepcopy(case["arguments"])))
+    emitted = T.tool_result_to_dict(r)
+    return {"emitted": canon(emitted), "valid": bool(T.validate_tool_result(r)), "roundtrip": _roundtrip(T.ToolResult, emitted),
+            "leaks": leaks(r, emitted)}
+
+
+FLOWS = {
+    "content-kind": flow_content_kind, "tool-result": flow_tool_result, "registry": flow_registry,
+    "elicit-client": flow_elicit_client, "elicit-route": flow_elicit_route, "embedded-bytes": flow_embedded_bytes,
+    "example-tool": flow_example_tool,
+}
+
+
+def op_flow(case):
+    fn = FLOWS.get(case["flow"])
+    if fn is None:
+        return {"ok": False, "exc": "no-such-flow"}
+    try:
+        return {"ok": True, **fn(case)}
+    except Exception as ex:  # noqa
+        return {"ok": False, "exc": type(ex).__name__, "msg": str(ex)[:200]}
+
+
+def _typing_of(t):
+    import typing
+
+    k = t["k"]
+    if k in ("str", "int", "float", "bool"):
+        return {"str": str, "int": int, "float": float, "bool": bool}[k]
+    if k == "any":
+        return typing.Any
+    if k == "lit":
+        return typing.Literal[tuple(t["vals"])]
+    if k == "opt":
+        return typing.Optional[_typing_of(t["t"])]
+    if k == "list":
+        return typing.List[_typing_of(t["t"])]
+    if k == "dict":
+        return typing.Dict[str, _typing_of(t["t"])]
+    if k == "union":
+        return typing.Union[tuple(_typing_of(m) for m in t["ts"])]
+    if k == "ref":
+        return INDEX[t["cls"]]
+    raise ValueError(k)
+
+
+def _plain(v):
+    """validated value -> JSON (model instances by their dump), and the type tree"""
+    if isinstance(v, B.McpPydanticBase):
+        return v.model_dump(by_alias=True, exclude_none=True)
+    if isinstance(v, (list, tuple)):
+        return [_plain(x) for x in v]
+    if isinstance(v, dict):
+        return {k: _plain(x) for k, x in v.items()}
+    return v
+
+
+def op_deep(case):
+    """the fallback's `_deep_validate` on ANY value (conforming or not) against a type expression"""
+    if B.PYDANTIC_AVAILABLE:
+        return {"ok": None}
+    if case.get("field"):
+        import typing
+        T = typing.get_type_hints(INDEX[case["field"][0]], include_extras=True)[case["field"][1]]
+    else:
+        T = _typing_of(case["ty"])
+    try:
+        r = B._deep_validate("x", copy.deepcopy(case["value"]), T)
+    except B.ValidationError:
+        return {"ok": False}
+    except Exception as ex:  # noqa
+        return {"ok": False, "other": type(ex).__name__}
+    return {"ok": True, "dump": canon(_plain(r)), "tree": SI.type_tree(r, B), "pytype": type(r).__name__}
+
+
 def op_info(_case):
     return {"backend": BACKEND, "classes": len(INDEX)}
 
 
-OPS = {"validate": op_validate, "parse": op_parse, "helper": op_helper, "construct": op_construct, "info": op_info}
+OPS = {"validate": op_validate, "parse": op_parse, "helper": op_helper, "construct": op_construct, "flow": op_flow, "deep": op_deep, "info": op_info}
 
 
 def main():
